@@ -330,6 +330,16 @@ def results_event(res, eng, keys, K, chains, included, excluded, store_kernel_st
                 arr = np.asarray(post[k0])[c]
                 tags = [_uniform_tag(arr[t])[:2] for t in range(arr.shape[0])]
             per_chain[c]["posterior"] = {"none": False, "tags": tags, "keys": sorted(post.keys())}
+    # tuning times as reported by the results object
+    # (G5, not a listed property: without any tuned epoch get_tuning_times() raises "Trying to unwrap None" instead of
+    # returning none - the tuning-info chain exists but is empty; treated as "no tuning times" here)
+    try:
+        tt = res.get_tuning_times()
+        none = tt.is_none()
+    except RuntimeError:
+        none = True
+    for c in range(chains):
+        per_chain[c]["tuning_times"] = [] if none else [int(x) for x in np.asarray(tt.unwrap())[c]]
     # reading and summarising the results must not change what is stored (gs.Summary edits the dict it is handed)
     reread_ok = True
     if post is not None and len(post):
